@@ -1,7 +1,7 @@
 (* The single entry point of the executable model: one S-expression in, one out. *)
 From Coq Require Import String.
 From Morph Require Import Base.UStr Base.Sexp Gen.Tables Model.SqlTypes Model.Spec20 Model.Terms Model.Data Model.Engine
-  Model.Mapping Model.Partition Model.Spec Model.Wire.
+  Model.Mapping Model.Partition Model.Spec Model.Wire Model.NQuads.
 Local Open Scope N_scope.
 
 Definition run_c20 (tag : ustr) (args : list sexp) : option sexp :=
@@ -87,13 +87,44 @@ Definition run_map (tag : ustr) (args : list sexp) : option sexp :=
     end
   else None.
 
+(* ---- strings / lines family *)
+Definition sx_term (t : term) : sexp :=
+  match t with
+  | TmIri b => L [A (u "iri"); A b]
+  | TmBnode l => L [A (u "bnode"); A l]
+  | TmLit v ANone => L [A (u "lit"); A v; A []; A []]
+  | TmLit v (ALang t) => L [A (u "lit"); A v; A (u "@"); A t]
+  | TmLit v (ADt i) => L [A (u "lit"); A v; A (u "^"); A i]
+  end.
+Definition run_str (tag : ustr) (args : list sexp) : option sexp :=
+  if tag_is tag "parse" then
+    match args with
+    | [A l] => Some (match parse_line l with
+                     | Some (s, p, o, g) => L [A (u "ok"); sx_term s; sx_term p; sx_term o; match g with Some gt => L [sx_term gt] | None => L [] end]
+                     | None => L [A (u "none")]
+                     end)
+    | _ => None
+    end
+  else if tag_is tag "escape" then
+    match args with [A s] => Some (A (escape_lit s)) | _ => None end
+  else if tag_is tag "pct" then
+    match args with [A safe; A s] => Some (A (pct_encode safe s)) | _ => None end
+  else if tag_is tag "printable" then
+    match args with [A s] => Some (A (remove_non_printable s)) | _ => None end
+  else if tag_is tag "canon" then
+    match args with
+    | [A dt; A s] => Some (match canon dt s with COk r => L [A (u "ok"); A r] | CErr => L [A (u "error")] | CUnmodelled => L [A (u "unmodelled")] end)
+    | _ => None
+    end
+  else None.
+
 Fixpoint first_some {T} (l : list (option T)) : option T :=
   match l with [] => None | Some x :: _ => Some x | None :: r => first_some r end.
 
 Definition run_case (x : sexp) : sexp :=
   match x with
   | L (A tag :: args) =>
-      match first_some [run_c20 tag args; run_map tag args] with
+      match first_some [run_c20 tag args; run_map tag args; run_str tag args] with
       | Some r => r
       | None => sx_err (u "bad-case")
       end
